@@ -71,7 +71,8 @@ def case_strategy():
             "eol": st.sampled_from(EOLS),
             # history: the strings of this tree were rendered earlier in this process in the *other* role
             # (attribute values as text children and the other way round)
-            "prior": st.sampled_from([False, False, True]),
+            # ... or earlier renderings in this process raised half way (inside raw-text and ordinary elements)
+            "prior": st.sampled_from([False, False, "roles", "failed", "both"]),
             "edits": st.lists(
                 st.one_of(
                     st.tuples(st.sampled_from(["pop", "del", "popitem", "clear"]), st.integers(0, 5)).map(list),
@@ -201,7 +202,22 @@ def body_tree(case, note):
 
     roots = case["roots"]
     indent, eol = case["indent"], case["eol"]
-    if case.get("prior"):
+    prior = case.get("prior")
+    prior = "roles" if prior is True else prior
+    if prior in ("failed", "both"):
+        from hv.build import Tfy
+
+        class _Boom:
+            def _repr_html_(self):
+                raise ValueError("user code failed while rendering")
+
+        for nm in ("script", "style", "div", "span"):
+            for kids in ((Tfy({"k": "text", "s": "z"}), "a<b"), ("x", htmltools.Tag("p", "y", _Boom())), (htmltools.Tag("b", Tfy({"k": "text", "s": "z"})),)):
+                try:
+                    htmltools.Tag(nm, *kids).get_html_string(indent, eol)
+                except (RuntimeError, ValueError):
+                    pass
+    if prior in ("roles", "both"):
         for v, role in _strings(roots, []):
             if role == "attr":
                 htmltools.Tag("p", v).get_html_string()
@@ -269,7 +285,8 @@ def body_tree(case, note):
         "depth>=3" if d >= 3 else "",
         "multi-root" if len(roots) > 1 else "",
         "re-rendered-after-edit" if edited else "",
-        "strings-rendered-earlier-in-the-other-role" if case.get("prior") and (ma or mt) else "",
+        "strings-rendered-earlier-in-the-other-role" if prior in ("roles", "both") and (ma or mt) else "",
+        "earlier-rendering-raised" if prior in ("failed", "both") and mt else "",
     )
 
 
@@ -407,7 +424,7 @@ CLAUSES = [
         quick=1500,
         thorough=20000,
         shards_quick=4,
-        required=("void", "attr-metachar", "text-metachar", "depth>=3", "re-rendered-after-edit", "strings-rendered-earlier-in-the-other-role"),
+        required=("void", "attr-metachar", "text-metachar", "depth>=3", "re-rendered-after-edit", "strings-rendered-earlier-in-the-other-role", "earlier-rendering-raised"),
         rule="see RULE",
         fuzz=100000,
     ),
